@@ -16,6 +16,16 @@ Reading of the source
   unless the raise is the only way out of an else-branch, in which case the branch yields `default_on_raise`;
 * `int(e)` truncates toward zero, `math.ceil`/`np.ceil` and `//` are exact on rationals, `round` is not accepted;
 * float literals are the exact doubles.
+
+Added for the decision code of C15 (classes `FnOpt`, `BoolFn` at the end of this file; used by
+harness/extractors/exprs_sex.py, and the statement-shape reader harness/extractors/exprs_center.py):
+* `FnOpt`: `a, b = helper(x, ...)` from a helper named `opaque` leaves `a`, `b` as the helper's results (bound by the
+  caller of the translator: the helper itself and `+` on its array argument stay abstract); `and`/`or` over resolved
+  `is None` tests are folded; with `decimal_floats` a float literal is the DECIMAL written in the source (`0.01` = 1/100);
+* `BoolFn`: functions over flags and boolean masks read elementwise -- every name a `Bool`; `and or not & | ~` as
+  `&& || !`; `.values` transparent; `self.m(args)` an opaque mask atom `m_args`; `<x>.<col> == self.<label>` the atom
+  `<col>_eq_<label>`; `m &= e`; `arr = np.zeros(..)` / `self.copy()` start an element at 0 (the CHANGE of the element for a
+  copy), `arr[mask] = c`, `arr[mask, "col"] += c` update it; `if p is None: p = ...` is skipped for a parameter given.
 """
 from __future__ import annotations
 
